@@ -107,11 +107,14 @@ def rand_keys(rng, n, top=False):
     return rng.sample(pool, n)
 
 
+CKEYS = [False]     # set by rand_datum around its own top-level draw: constructor keys only in a datum that IS the map
+
+
 def rand_map(rng, depth, first=None, ckeys=True):
     """a map with 0..4 entries in INSERTION order (random: usually neither bytewise nor canonical order);
     first = an entry that has to stay in first position"""
     n = rng.choice([0, 1, 2, 2, 3, 3, 4])
-    keys = [k for k in rand_keys(rng, n, top=ckeys and depth >= 2) if first is None or k != first[0]]
+    keys = [k for k in rand_keys(rng, n, top=ckeys and CKEYS[0] and depth >= 2) if first is None or k != first[0]]
     if rng.random() < 0.15:
         keys.sort()                                             # bytewise order: still not canonical when lengths differ
     pairs = [(k, rand_pd(rng, depth - 1)) for k in keys]
@@ -142,7 +145,11 @@ def rand_datum(rng):
     IndefiniteList / list, RawPlutusData around a constructor), 'raw' = wrapped in RawCBOR (always a truthy object)"""
     if rng.random() < 0.12:
         return foreign_pd(rng), 'raw'
-    b = rng.choice(FALSY) if rng.random() < 0.25 else rand_pd(rng)
+    CKEYS[0] = True
+    try:
+        b = rng.choice(FALSY) if rng.random() < 0.25 else rand_pd(rng)
+    finally:
+        CKEYS[0] = False
     return b, datum_form(rng, b)
 
 
